@@ -930,6 +930,87 @@ fn compose_capture_family(acc: &Acc, only: Option<(&str, &str)>) {
     }
 }
 
+/// Blocks rendered one by one through a `State` (`State::render_block`): a block is a scoped construct
+/// whoever starts it.  From every kind of state an embedder can hold (a fresh `Template::new_state()`,
+/// the state a `render_captured` hands back), every sequence of up to
+/// three fragments out of five blocks - binding a name with set, printing whether it is bound, failing
+/// inside with + for, capturing with a set block, a loop left by break - must give for its last
+/// fragment what that block gives as the first fragment on a new state of the same kind, and none of
+/// the names a block bound may be visible through `State::lookup` afterwards.
+fn fragment_scopes(acc: &Acc, only: Option<&str>) {
+    const T: &str = "{% block a %}{% set v = 'A' %}[a{{ v }}]{% endblock %}{% block b %}<{{ v is defined }}{{ w is defined }}{{ i is defined }}>{% endblock %}{% block c %}{% with w = 1 %}{% for i in [1, 2] %}{{ i }}{% if i == 2 %}{{ 1 // zero }}{% endif %}{% endfor %}{% endwith %}{% endblock %}{% block d %}{% set q %}cap{% set v = 'D' %}{% endset %}{{ q }}{% endblock %}{% block e %}{% for i in [1, 2, 3] %}{% with w = i %}{% if i == 2 %}{% break %}{% endif %}{{ w }}{% endwith %}{% endfor %}{% endblock %}";
+    const BLOCKS: [&str; 5] = ["a", "b", "c", "d", "e"];
+    // (in the captured kind `zero` is 1 and block c renders; on a fresh state it is undefined and c fails)
+    const KINDS: [&str; 2] = ["new_state", "render_captured"];
+    let mut env = Environment::new();
+    env.add_template("t", T).unwrap();
+    let env = env;
+    let run = |kind: &str, seq: &[usize]| -> Result<(String, Vec<String>), String> {
+        catch(|| {
+            let t = env.get_template("t").unwrap();
+            let body = |state: &mut minijinja::State<'_, '_>| -> (String, Vec<String>) {
+                let mut last = String::new();
+                for b in seq {
+                    last = match state.render_block(BLOCKS[*b]) {
+                        Ok(s) => format!("ok:{}", s),
+                        Err(e) => format!("err:{:?}", e.kind()),
+                    };
+                }
+                let leaked: Vec<String> = ["v", "w", "i", "q"].iter().filter(|n| state.lookup(n).map_or(false, |v| !v.is_undefined())).map(|n| n.to_string()).collect();
+                (last, leaked)
+            };
+            match kind {
+                "new_state" => {
+                    let mut state = t.new_state();
+                    Ok(body(&mut state))
+                }
+                _ => {
+                    let mut cap = t.render_captured(minijinja::context! { zero => 1 }).map_err(|e| format!("{:?}", e.kind()))?;
+                    Ok(cap.with_state_mut(|st| body(st)))
+                }
+            }
+        })
+        .unwrap_or_else(|p| Err(format!("panic: {} at {}", p, last_panic_loc())))
+    };
+    for kind in KINDS {
+        let firsts: Vec<Result<(String, Vec<String>), String>> = (0..BLOCKS.len()).map(|b| run(kind, &[b])).collect();
+        let mut seqs: Vec<Vec<usize>> = vec![];
+        for a in 0..BLOCKS.len() {
+            seqs.push(vec![a]);
+            for b in 0..BLOCKS.len() {
+                seqs.push(vec![a, b]);
+                for c in 0..BLOCKS.len() {
+                    seqs.push(vec![a, b, c]);
+                }
+            }
+        }
+        for seq in seqs {
+            let name = format!("{} {}", kind, seq.iter().map(|b| BLOCKS[*b]).collect::<Vec<_>>().join(">"));
+            if only.map_or(false, |o| o != name) {
+                continue;
+            }
+            acc.eval(1);
+            let got = run(kind, &seq);
+            let want = &firsts[*seq.last().unwrap()];
+            let ok = match (&got, want) {
+                (Ok((g, leaked)), Ok((w, _))) => g == w && leaked.is_empty(),
+                _ => false,
+            };
+            if ok {
+                acc.outcome("fragment renders as on a new state and leaves no binding behind");
+                acc.nontrivial(fnv(name.as_bytes()));
+            } else {
+                acc.fail(Failure {
+                    key: format!("scope fragment_through_state kind={} last_block={}", kind, BLOCKS[*seq.last().unwrap()]),
+                    case: name.clone(),
+                    detail: format!("fragments {:?}: got {:?}; the last block as first fragment on a new state gives {:?}; names visible afterwards must be none", seq.iter().map(|b| BLOCKS[*b]).collect::<Vec<_>>(), got, want),
+                    replay: json!({"kind": "fragment_scopes", "name": name}),
+                });
+            }
+        }
+    }
+}
+
 pub fn main(args: Args) -> i32 {
     let start_t = std::time::Instant::now();
     install_quiet_panic_hook();
@@ -939,6 +1020,17 @@ pub fn main(args: Args) -> i32 {
         let j = &doc["replay"];
         if j["kind"] == "compose_capture" {
             compose_capture_family(&acc, Some((j["host"].as_str().unwrap(), j["callee"].as_str().unwrap())));
+            let fs = acc.take_failures();
+            for f in &fs {
+                println!("VIOLATION property=C05 replay={}  # {} :: {}", p, f.key, f.detail);
+            }
+            if fs.is_empty() {
+                println!("replay: case passes");
+            }
+            return if fs.is_empty() { 0 } else { 1 };
+        }
+        if j["kind"] == "fragment_scopes" {
+            fragment_scopes(&acc, j["name"].as_str());
             let fs = acc.take_failures();
             for f in &fs {
                 println!("VIOLATION property=C05 replay={}  # {} :: {}", p, f.key, f.detail);
@@ -1256,6 +1348,7 @@ pub fn main(args: Args) -> i32 {
         });
     }
     compose_capture_family(&acc, None);
+    fragment_scopes(&acc, None);
     acc.count("compose_capture_programs", 14 * 9);
     let machinery = acc.n_failures() > 0 && {
         // conformance failures are machinery errors: report them but never as a verdict
